@@ -1,6 +1,7 @@
 """C01: find results equal the backtracking semantics of the pattern as written."""
 import itertools
 from props.core import *
+from props.common import E2, E3, E4, MB_TEXTS
 
 ASSUMPTIONS = [
     "atoms (literals, classes, anchors, ranges) have the implementation's semantics in model and specification alike (Model/Atoms.v); their tie to the Go code is the correspondence",
@@ -56,6 +57,10 @@ def run(ctx):
         extra.append({"src": "find all caseless '%s'" % lit, "texts": cl_texts})
         extra.append({"src": "find all (caseless '%s') or 'k'" % lit, "texts": cl_texts})
         extra.append({"src": "replace all caseless '%s' with '(' value ')'" % lit, "texts": cl_texts})
+    # characters of several bytes: a literal is a byte string and `not in` / `not` consume ONE byte when no listed item starts here, whatever the items' sizes in characters
+    for p in ("not in '%s'" % E2, "not in '%s', 'x'" % E3, "at least 1 (not in '\xc3\xbc', 'x') '!'", "not in '\\xe9'", "not '%s'" % E2, "at least 1 (not in '%s', '%s') fewest 'a'" % (E2, E4),
+              "'%s' maybe 'a'" % E2, "in '%s', 'a'" % E2, "any", "any any", "between 1 and 2 '%s' 'a'" % E2, "at least 0 '%s' fewest 'a'" % E2, "(not in '%s') = x x" % E2, "not in '%sa', 'b'" % E2):
+        extra.append({"src": "find all " + p, "texts": MB_TEXTS})
     # several stored patterns with DIFFERENT predicates asked about the same piece of text within one attempt (alternation, nesting, one after the other):
     # each verdict belongs to its own predicate and its own candidate
     preds = ["matchLength == 1", "matchLength == 2", "matchLength > 1", "match == 'a'", "match != 'ab'", "match < 'b'", "false", "true", "(match % 2) == 0", "(match % 3) == 0"]
